@@ -131,33 +131,41 @@ Definition ser_hext (D : dset) : doc := blocks_of lab_std D (ctxs_plus_default D
 Definition trig_listed (D : dset) : list cid :=
   filter (fun c => negb (isnil (g_triples D c))) (ctxs_plus_default D).
 
-(* TurtleSerializer._references after TrigSerializer.preprocess, as a multiset:
-   one entry per triple for its object (and for a blank-node predicate), one
-   entry per context for each of its subjects *)
-Definition trig_refs (D : dset) : list N :=
-  flat_map (fun c => let ts := g_triples D c in
-                     map (fun t => snd t) ts
-                     ++ filter isb (map (fun t => snd (fst t)) ts)
-                     ++ dedup N.eqb (map (fun t => fst (fst t)) ts))
-           (trig_listed D).
+(* TurtleSerializer._references after TrigSerializer.preprocess, as a multiset
+   (four segments, each summed over the listed contexts): one entry per triple
+   for its object, one per triple for a blank-node predicate, one per context
+   for each of its subjects, and - since the repair of finding F19, [lbl = true] -
+   one per context for its own label when that is a blank node.
+   [lbl = false] is the historical code. *)
+Definition trig_refs_gen (lbl : bool) (D : dset) : list N :=
+  let L := trig_listed D in
+  flat_map (fun c => map (fun t => snd t) (g_triples D c)) L
+  ++ flat_map (fun c => filter isb (map (fun t => snd (fst t)) (g_triples D c))) L
+  ++ flat_map (fun c => dedup N.eqb (map (fun t => fst (fst t)) (g_triples D c))) L
+  ++ (if lbl then filter isb L else []).
 
 Definition count_occ_N (x : N) (l : list N) : nat := length (filter (N.eqb x) l).
 
 (* turtle.py p_squared: a blank-node object with at most one reference is
-   written inline as [ ... ]; the graph NAME is not a reference *)
-Definition inlined (D : dset) (o : N) : bool :=
-  isb o && Nat.leb (count_occ_N o (trig_refs D)) 1.
+   written inline as [ ... ] *)
+Definition inlined_gen (lbl : bool) (D : dset) (o : N) : bool :=
+  isb o && Nat.leb (count_occ_N o (trig_refs_gen lbl D)) 1.
 
 (* the parser reads [ ] as a brand-new node: in the document this is a label
    used nowhere else *)
 Definition anon_label (D : dset) (o : N) : N :=
   2 * (N.succ (list_max (ids_of (d_quads D))) + o) + 1.
 
-Definition inl_triple (D : dset) (t : triple) : triple :=
-  (fst t, if inlined D (snd t) then anon_label D (snd t) else snd t).
+Definition inl_triple_gen (lbl : bool) (D : dset) (t : triple) : triple :=
+  (fst t, if inlined_gen lbl D (snd t) then anon_label D (snd t) else snd t).
 
-Definition ser_trig (D : dset) : doc :=
-  map (fun c => (lab_std c, map (inl_triple D) (g_triples D c))) (dedup N.eqb (trig_listed D)).
+Definition ser_trig_gen (lbl : bool) (D : dset) : doc :=
+  map (fun c => (lab_std c, map (inl_triple_gen lbl D) (g_triples D c))) (dedup N.eqb (trig_listed D)).
+
+Definition trig_refs := trig_refs_gen true.
+Definition inlined := inlined_gen true.
+Definition inl_triple := inl_triple_gen true.
+Definition ser_trig := ser_trig_gen true.
 
 (* trix.py: for subgraph in store.contexts(): _writeGraph(subgraph) *)
 Definition ser_trix (D : dset) : doc := blocks_of lab_trix D (ds_contexts D).
@@ -244,13 +252,16 @@ Definition prow := (bool * glabel * triple)%type.    (* true = A row, false = D 
 Definition patch_rows (op : bool) (X : dset) : list prow :=
   flat_map (fun c => map (fun t => (op, lab_std c, t)) (g_triples X c)) (ds_contexts X).
 
-(* serialize(format="patch", target=T) on S: A rows of T - S, then D rows of S - T.
-   "elif not target: operation = 'add'": the target is tested by TRUTHINESS, and
-   a Dataset without any triple is falsy - the diff is not computed then and
-   the add-patch of S is written instead. *)
+(* serialize(format="patch", target=T) on S: A rows of T - S, then D rows of S - T
+   ("elif target is not None", since the repair of finding F18) *)
 Definition ser_patch_diff (S T : dset) : list prow :=
-  if isnil (d_quads T) then patch_rows true S
-  else patch_rows true (ds_sub T S) ++ patch_rows false (ds_sub S T).
+  patch_rows true (ds_sub T S) ++ patch_rows false (ds_sub S T).
+
+(* the historical code tested the target by TRUTHINESS ("elif not target:
+   operation = 'add'"): a Dataset without any triple is falsy, the add-patch
+   of S was written instead of the diff *)
+Definition ser_patch_diff_prefix (S T : dset) : list prow :=
+  if isnil (d_quads T) then patch_rows true S else ser_patch_diff S T.
 
 Definition route (l : glabel) : cid := match l with GName c => c | _ => 0%N end.
 
@@ -317,18 +328,12 @@ Definition term_ids (D : qset) : list N :=
    1 (F8b): JSON-LD output merges every blank-node-named graph into the default
             graph - manifests as soon as such a graph holds a triple;
    2 (F17): TriX output does not write a blank-node graph name - manifests when
-            the name of a non-empty graph is also a node of some triple;
-   3 (F19): TriG output writes a blank-node object with a single reference
-            inline as [ ] although the node is also the NAME of a graph
-            (trigger: some object is written inline);
-   4 (F18): the patch serialiser tests the target by truthiness - manifests
-            when the target has no triple and the source has one. *)
+            the name of a non-empty graph is also a node of some triple.
+   (F18 patch/empty target and F19 TriG/inline graph name are repaired.) *)
 Definition kf (c : case) : N :=
   let Q := d_quads (c_src c) in
   match c_fmt c with
   | Jsonld => if existsb (fun q => isb (snd q)) Q then 1%N else 0%N
   | Trix => if existsb (fun q => isb (snd q) && memb N.eqb (snd q) (term_ids Q)) Q then 2%N else 0%N
-  | Trig => if existsb (fun q => inlined (c_src c) (snd (fst q))) Q then 3%N else 0%N
-  | PatchDiff => if isnil (d_quads (c_tgt c)) && negb (isnil Q) then 4%N else 0%N
   | _ => 0%N
   end.
